@@ -126,6 +126,15 @@ func (s *RegionStorage) SaveRegion(region *metapb.Region) error {
 	return nil
 }
 
+// DeleteRegion removes a region from the region storage, a save of it that is still buffered included
+// (the next flush would write it back otherwise).
+func (s *RegionStorage) DeleteRegion(region *metapb.Region) error {
+	s.mu.Lock()
+	defer s.mu.Unlock()
+	delete(s.batchRegions, regionPath(region.GetId()))
+	return deleteRegion(s.LeveldbKV, region)
+}
+
 func deleteRegion(kv kv.Base, region *metapb.Region) error {
 	return kv.Remove(regionPath(region.GetId()))
 }
